@@ -14,4 +14,4 @@ Extraction "vext.ml" mkNumOps cart nindex ncart lsd lssd mixed off_centre cspd c
   QOps ubar pbar pbar_closed wbar_code_gen wbar_code wbar_spec obar_code_gen obar_code obar_spec yterms cnorm
   maxN_one maxN_two init_grid integrate_one integrate_two rminmax st_indices
   node_K node_dK calc_vec calc_one PA PB expand
-  type1 t2_both rolled_up rolled_up_special combine_pair.
+  type1 t2_both rolled_up rolled_up_special combine_pair pair_t2.
